@@ -143,6 +143,19 @@ def generate(rng, index, tier):
                                                           uhdr=(rng.pick([2, 3, 0x12, 0x102]), rng.pick([4, 2, 0])), udata=rows_))
                 threads[b]['ops'].append(worlds.op_sample(rng, flags=8, thd=None, uhdr=(rng.pick([0, 1, 4]), 3), udata=[[rng.randrange(1, 1 << 40) for _w in range(4)]]))
                 continue
+            if rng.chance(0.1):
+                # a call of thread a returns (or takes) the very pid that thread b's announcement pair names: a number, nothing more
+                pr_ = [op['ops'][0] for op in threads[b]['ops'] if op.get('k') == 'seq' and len(op['ops']) == 2 and op['ops'][0].get('name', '').startswith('TRACE_DATA')]
+                if pr_:
+                    d_ = rng.pick(pr_)
+                    pid_ = d_['a'][1] if d_['name'] == 'TRACE_DATA_NEWTHREAD' else d_['a'][0]
+                    nm_ = rng.pick([n for n in ('BSC_wait4_nocancel', 'BSC_getpid', 'BSC_getppid', 'BSC_fork', 'BSC_vfork', 'BSC_kill', 'BSC_getpgid') if n in worlds.catalog()['ids']])
+                    s_, e_ = worlds.domains.draw(rng, nm_)
+                    e_[0], e_[1] = 0, pid_
+                    if rng.chance(0.5):
+                        s_[0] = pid_
+                    threads[a]['ops'].insert(rng.randrange(len(threads[a]['ops']) + 1), {'k': 'sys', 'name': nm_, 's': s_, 'e': e_, 'in': []})
+                    continue
             if r3 >= 0.82:
                 ids_ = worlds.catalog()['ids']
                 if r3 < 0.91:
